@@ -618,8 +618,22 @@ def end_position(chk, prog):
                         q = strip_casts(x.ops[0])
                         if q.is_inst and q.op == "getelementptr" and q.field():
                             size_fields.add(q.field())
-        stores = [i for i in f.insts() if i.op == "store" and strip_casts(i.ops[1]).is_inst and
+        stores = [(i, i.ops[0]) for i in f.insts() if i.op == "store" and strip_casts(i.ops[1]).is_inst and
                   strip_casts(i.ops[1]).op == "getelementptr" and strip_casts(i.ops[1]).field() in size_fields]
+        # the update may sit in a static helper that is handed the new end position
+        for c in f.calls():
+            if not c.callee:
+                continue
+            h = prog.fn(c.callee, f.unit)
+            if h is None or h.decl or h.unit is not f.unit or h is f:
+                continue
+            for i in h.build().insts():
+                if i.op == "store" and strip_casts(i.ops[1]).is_inst and strip_casts(i.ops[1]).op == "getelementptr" and \
+                        strip_casts(i.ops[1]).field() in size_fields:
+                    ps = [x for x in [strip_casts(i.ops[0])] + list(backward_slice(i.ops[0], phi_control=False)) if x.is_arg]
+                    ps = list({id(x): x for x in ps if not (x.ty or "").endswith("*")}.values())
+                    if len(ps) == 1 and ps[0].idx < len(c.ops):
+                        stores.append((c, c.ops[ps[0].idx]))
         if not stores:
             continue
         chk.analysed(f)
@@ -633,19 +647,19 @@ def end_position(chk, prog):
                 return t is not None and not t.decl and t.unit is f.unit and _transfers(prog, t)
             return False
         xfers = [c for c in f.calls() if is_transfer(c)]
-        for s_ in stores:
+        for (s_, sval_) in stores:
             n += 1
-            inst = "%s:%s" % (f.name, strip_casts(s_.ops[1]).field()[1])
+            inst = "%s:%s" % (f.name, sorted(size_fields)[0][1])
             bad = None
             paths = _acyclic_paths(f, s_.bb, cap=400)
             for path in paths:
-                sl = _slice_on_path(s_.ops[0], path)
+                sl = _slice_on_path(sval_, path)
                 ids = {id(x) for x in sl}
                 # offset + size of the function itself
-                if _is_sum_of_params(s_.ops[0], path, f):
+                if _is_sum_of_params(sval_, path, f):
                     continue
                 for c in xfers:
-                    if c.bb not in path or (c.bb is s_.bb and c.pos > s_.pos):
+                    if c.bb not in path or (c.bb is s_.bb and c.pos >= s_.pos) or c is s_:
                         continue
                     if id(c) in ids:
                         continue
